@@ -98,12 +98,17 @@ def run_item(item):
                 opts['--hunk-header-style'] = 'raw'
                 opts['--hunk-header-decoration-style'] = 'none'
     hyper = rng.random() < 0.4
+    repo_cwd = None
     if hyper:
         opts['--hyperlinks'] = True
         if rng.random() < 0.5:
             opts['--hyperlinks-file-link-format'] = rng.choice(['file://{path}', 'vscode://file/{path}:{line}', 'x://{host}/{path}#{line}'])
         if rng.random() < 0.5:
             opts['--hyperlinks-commit-link-format'] = 'https://example.com/c/{commit}'
+        elif rng.random() < 0.6:
+            # no format given: delta derives one from the "origin" remote of the repository it runs in
+            from . import c19
+            repo_cwd = c19.make_repo(rng.choice(c19.REMOTES)[0])
     if case['view'] == 'unified' and rng.random() < 0.3:
         # line numbers with a format of their own (width, precision), next to hyperlinks if those are on
         opts['--line-numbers'] = True
@@ -118,7 +123,13 @@ def run_item(item):
     if mode == 'pty' and '--dark' not in opts and '--light' not in opts:
         opts['--dark'] = True
     data = ('\n'.join(lines) + '\n').encode('utf-8', 'surrogateescape')
-    res = runner.run_delta(gen.to_args(opts), data, mode=mode, pty_size=size, **workload.parent_kw(case))
+    res = runner.run_delta(gen.to_args(opts), data, mode=mode, pty_size=size, cwd=repo_cwd, **workload.parent_kw(case))
+    if repo_cwd is not None:
+        import shutil
+        shutil.rmtree(repo_cwd, ignore_errors=True)
+        case = dict(case)
+        case['meta'] = dict(case['meta'])
+        case['meta']['classes'] = list(case['meta']['classes']) + ['remote-derived-commit-links']
     c = crash_outcome(res, ID)
     if c is not None:
         return c
